@@ -273,7 +273,12 @@ def parts_loop_annot(prefix='parse_indexes'):
         else:
             ctx.oblige(prefix + '/part/known-sequence-kind', z3.BoolVal(False))
 
+    # `sequences` grows in the body: this VC claims the per-part denotation
+    # only (checked at the end of the arbitrary iteration); nothing is claimed
+    # about the code after the loop here - the composition over whole replies
+    # is the (bounded) pipeline VC
     return LoopAnnot(on_element=on_element, at_iteration_end=at_end,
+                     mutates={'append of a list'},
                      keep={'sequences', 'split', 'first', 'last', 'int_index'})
 
 
